@@ -2,6 +2,7 @@ package openapiv3
 
 import (
 	"fmt"
+	"slices"
 	"strconv"
 
 	"github.com/pb33f/libopenapi/datamodel/high/base"
@@ -37,12 +38,27 @@ func extractValidationConstraints(field *protogen.Field, schema *base.Schema) {
 	switch field.Desc.Kind() {
 	case protoreflect.StringKind:
 		applyStringConstraints(fieldConstraints, schema)
-	case protoreflect.Int32Kind, protoreflect.Sint32Kind, protoreflect.Sfixed32Kind,
-		protoreflect.Uint32Kind, protoreflect.Fixed32Kind:
+	case protoreflect.Int32Kind:
 		applyInt32Constraints(fieldConstraints, schema)
-	case protoreflect.Int64Kind, protoreflect.Sint64Kind, protoreflect.Sfixed64Kind,
-		protoreflect.Uint64Kind, protoreflect.Fixed64Kind:
+	case protoreflect.Int64Kind:
 		applyInt64Constraints(fieldConstraints, schema)
+	// every other integer kind has a rule message of its own
+	case protoreflect.Sint32Kind:
+		applyIntegerRules[int32](fieldConstraints.GetSint32(), schema)
+	case protoreflect.Sfixed32Kind:
+		applyIntegerRules[int32](fieldConstraints.GetSfixed32(), schema)
+	case protoreflect.Uint32Kind:
+		applyIntegerRules[uint32](fieldConstraints.GetUint32(), schema)
+	case protoreflect.Fixed32Kind:
+		applyIntegerRules[uint32](fieldConstraints.GetFixed32(), schema)
+	case protoreflect.Sint64Kind:
+		applyIntegerRules[int64](fieldConstraints.GetSint64(), schema)
+	case protoreflect.Sfixed64Kind:
+		applyIntegerRules[int64](fieldConstraints.GetSfixed64(), schema)
+	case protoreflect.Uint64Kind:
+		applyIntegerRules[uint64](fieldConstraints.GetUint64(), schema)
+	case protoreflect.Fixed64Kind:
+		applyIntegerRules[uint64](fieldConstraints.GetFixed64(), schema)
 	case protoreflect.FloatKind:
 		applyFloatConstraints(fieldConstraints, schema)
 	case protoreflect.DoubleKind:
@@ -238,6 +254,57 @@ func applyInt64Constraints(constraints *validate.FieldRules, schema *base.Schema
 				Kind:  yaml.ScalarNode,
 				Value: strconv.FormatInt(value, 10),
 			})
+		}
+	}
+}
+
+// integerRules is what the rule messages of the integer kinds (sint32, uint32, fixed64, ...) have in
+// common; their getters are nil-safe, so an absent rule message simply has no constraint.
+type integerRules[T int32 | int64 | uint32 | uint64] interface {
+	HasGte() bool
+	GetGte() T
+	HasGt() bool
+	GetGt() T
+	HasLte() bool
+	GetLte() T
+	HasLt() bool
+	GetLt() T
+	HasConst() bool
+	GetConst() T
+	GetIn() []T
+}
+
+// applyIntegerRules applies the validation constraints of an integer kind to the schema.
+func applyIntegerRules[T int32 | int64 | uint32 | uint64](rules integerRules[T], schema *base.Schema) {
+	if rules.HasGte() {
+		minValue := float64(rules.GetGte())
+		schema.Minimum = &minValue
+	}
+	if rules.HasGt() {
+		minValue := float64(rules.GetGt())
+		schema.ExclusiveMinimum = &base.DynamicValue[bool, float64]{N: 1, B: minValue}
+	}
+	if rules.HasLte() {
+		maxValue := float64(rules.GetLte())
+		schema.Maximum = &maxValue
+	}
+	if rules.HasLt() {
+		maxValue := float64(rules.GetLt())
+		schema.ExclusiveMaximum = &base.DynamicValue[bool, float64]{N: 1, B: maxValue}
+	}
+	// a 64-bit integer travels as a decimal string unless int64_encoding says NUMBER: its const and
+	// in values are then strings too
+	tag := ""
+	if slices.Contains(schema.Type, headerTypeString) {
+		tag = "!!str"
+	}
+	if rules.HasConst() {
+		schema.Const = &yaml.Node{Kind: yaml.ScalarNode, Tag: tag, Value: fmt.Sprint(rules.GetConst())}
+	}
+	if len(rules.GetIn()) > 0 {
+		schema.Enum = make([]*yaml.Node, 0, len(rules.GetIn()))
+		for _, value := range rules.GetIn() {
+			schema.Enum = append(schema.Enum, &yaml.Node{Kind: yaml.ScalarNode, Tag: tag, Value: fmt.Sprint(value)})
 		}
 	}
 }
